@@ -321,7 +321,11 @@ func (e *fedEnv) buildEngine(ctx context.Context, o fedEngineOpts) (*engine.Exec
 		for _, t := range s.Types {
 			if t.Abstract != "" {
 				if t.Abstract == "interface" && s.ownsAbstract(sub) {
-					md.ChildNodes = append(md.ChildNodes, plan.TypeField{TypeName: t.Name, FieldNames: []string{"id"}})
+					names := []string{"id"}
+					for _, f := range t.Fields {
+						names = append(names, f.Name)
+					}
+					md.ChildNodes = append(md.ChildNodes, plan.TypeField{TypeName: t.Name, FieldNames: names})
 				}
 				continue
 			}
@@ -341,7 +345,7 @@ func (e *fedEnv) buildEngine(ctx context.Context, o fedEngineOpts) (*engine.Exec
 						}
 					}
 				}
-				md.RootNodes = append(md.RootNodes, plan.TypeField{TypeName: t.Name, FieldNames: names, ExternalFieldNames: sortedStrings(s.external(t, sub))})
+				md.RootNodes = append(md.RootNodes, plan.TypeField{TypeName: t.Name, FieldNames: names, ExternalFieldNames: sortedStrings(s.externalFor(t, sub, false))})
 				md.FederationMetaData.Keys = append(md.FederationMetaData.Keys, plan.FederationFieldConfiguration{TypeName: t.Name, SelectionSet: "id"})
 			} else if s.usesValue(t, sub) {
 				var names []string
@@ -587,6 +591,9 @@ func runFED01(r *core.Run) {
 	if r.Flag("noabstract") != "" {
 		am = 0
 	}
+	if r.Flag("ifacefields") != "" {
+		am = 3
+	}
 	e := newFedEnvA(r, r.Flag("plain") == "", am)
 	ctx, cancel := context.WithCancel(context.Background())
 	defer cancel()
@@ -625,7 +632,11 @@ func runFED01(r *core.Run) {
 			return
 		}
 		if x.err != nil {
-			r.Fail(prop, "planning-or-execution-failed", "", "the gateway rejected a valid operation: %v\noperation: %s\nvariables: %s\n%s", x.err, x.op.Query, x.op.Vars, e.describe())
+			key := ""
+			if e.ifaceFieldShape(x.op.Query) {
+				key = "interface-field-repeated-in-member-fragment"
+			}
+			r.Fail(prop, "planning-or-execution-failed", key, "the gateway rejected a valid operation: %v\noperation: %s\nvariables: %s\n%s", x.err, x.op.Query, x.op.Vars, e.describe())
 			continue
 		}
 		body := x.w.body()
@@ -639,6 +650,8 @@ func runFED01(r *core.Run) {
 		if data != want {
 			if planHasDependencyCycle(body) {
 				key = "plan-with-cyclic-fetch-dependencies"
+			} else if e.ifaceFieldShape(x.op.Query) {
+				key = "interface-field-repeated-in-member-fragment"
 			} else if sharedKeyFinding(x.op.Query, data, want) {
 				key = "below-response-key-shared-by-type-conditions"
 			}
@@ -649,7 +662,13 @@ func runFED01(r *core.Run) {
 		}
 	}
 	if len(e.viol) > 0 {
-		r.Fail(prop, "invalid-subgraph-request", "", "%s\n%s", e.viol[0], e.describe())
+		key := ""
+		for _, o := range ops {
+			if e.ifaceFieldShape(o.Query) {
+				key = "interface-field-repeated-in-member-fragment"
+			}
+		}
+		r.Fail(prop, "invalid-subgraph-request", key, "%s\n%s", e.viol[0], e.describe())
 	}
 	r.Res.Nontrivial = len(e.reqs) >= 2
 	if e.maxInfl > 1 {
@@ -940,4 +959,106 @@ func planHasDependencyCycle(body string) bool {
 		}
 	}
 	return false
+}
+
+// ifaceFieldShape recognises the operations of a known finding: a field of the interface is
+// selected without a type condition, a fragment on a member type T selects it again, and T's copy of
+// the field is not owned by the subgraph that resolves the enclosing abstract field. The planner then
+// leaves the abstract selection as it is and asks that subgraph for T's field, which it does not own.
+func (e *fedEnv) ifaceFieldShape(query string) bool {
+	s := e.spec
+	if !s.Abstract {
+		return false
+	}
+	doc, err := parseGQL(query)
+	if err != nil {
+		return false
+	}
+	found := false
+	// flatten collects the direct fields of a selection set per type condition ("" = none)
+	var flatten func(sel []*gSelection, cond string, into map[string]map[string]bool)
+	flatten = func(sel []*gSelection, cond string, into map[string]map[string]bool) {
+		for _, x := range sel {
+			switch x.Kind {
+			case "field":
+				if into[cond] == nil {
+					into[cond] = map[string]bool{}
+				}
+				into[cond][x.Name] = true
+			case "inline":
+				c := cond
+				if x.TypeCond != "" {
+					c = x.TypeCond
+				}
+				flatten(x.Sel, c, into)
+			case "spread":
+				if f := doc.Frags[x.Name]; f != nil {
+					flatten(f.Sel, f.TypeCond, into)
+				}
+			}
+		}
+	}
+	var walk func(typeName string, owner int, sel []*gSelection)
+	walk = func(typeName string, owner int, sel []*gSelection) {
+		t := s.typ(typeName)
+		if t != nil && t.Abstract == "interface" {
+			by := map[string]map[string]bool{}
+			flatten(sel, "", by)
+			for name := range by[""] {
+				if name == "id" || name == "__typename" {
+					continue
+				}
+				for cond, fields := range by {
+					m := s.typ(cond)
+					if cond == "" || m == nil || !m.Entity || !fields[name] {
+						continue
+					}
+					if f := m.field(name); f != nil && f.Owner != owner {
+						found = true
+					}
+				}
+			}
+		}
+		for _, x := range sel {
+			switch x.Kind {
+			case "field":
+				var f *fedField
+				switch {
+				case typeName == "Query":
+					for _, r := range s.Roots {
+						if r.Name == x.Name {
+							f = r
+						}
+					}
+				case t != nil:
+					f = t.field(x.Name)
+				}
+				if f == nil {
+					continue
+				}
+				o := f.Owner
+				if o < 0 { // a field of the interface itself: resolved wherever the enclosing value was
+					o = owner
+				}
+				walk(f.Type.Name, o, x.Sel)
+			case "inline":
+				tn := typeName
+				if x.TypeCond != "" {
+					tn = x.TypeCond
+				}
+				walk(tn, owner, x.Sel)
+			case "spread":
+				if fr := doc.Frags[x.Name]; fr != nil {
+					walk(fr.TypeCond, owner, fr.Sel)
+				}
+			}
+		}
+	}
+	for _, op := range doc.Ops {
+		if op.Type == "mutation" {
+			continue
+		}
+		walk("Query", -1, op.Sel)
+	}
+	return found
 }
